@@ -45,14 +45,16 @@ pub struct Case {
     pub id_a: bool,
 }
 
+/// neighbours 2k and 2k+1 compare equal with `==` but are different solutions (zeros of different sign),
+/// and the objective function tells them apart
 fn sol(i: usize) -> Vec<f64> {
-    vec![0.5 + i as f64, -0.25 * i as f64]
+    vec![0.5 + (i / 2) as f64, if i % 2 == 0 { 0.0 } else { -0.0 }]
 }
 
 pub fn run_case(c: &Case) -> Result<(), (String, String)> {
     let gate = Gate::new();
     let instr = Instr::gated(gate.clone());
-    let problem = RealP::new(2, -10.0, 10.0, FKind::Sphere, instr.clone());
+    let problem = RealP::new(2, -10.0, 10.0, FKind::ZeroSign, instr.clone());
     let n = c.pop.as_ref().map(|m| m.len()).unwrap_or(0);
     let below: Vec<Individual<RealP>> = vec![Individual::new(vec![9.0, 9.0], so(1234.0))];
     let mut pops = vec![below.clone()];
@@ -158,7 +160,7 @@ pub fn run_case(c: &Case) -> Result<(), (String, String)> {
             return Err((format!("{} population-size", head), ctx(format!("{} individuals afterwards", cur.len()))));
         }
         for (i, ind) in cur.iter().enumerate() {
-            if *ind.solution() != sol(i) {
+            if fkey(ind.solution()) != fkey(&sol(i)) {
                 return Err((format!("{} order-or-solution-changed", head), ctx(format!("individual {} has solution {:?}", i, ind.solution()))));
             }
             match ind.get_objective() {
@@ -232,6 +234,48 @@ fn check_missing_evaluator(want_a: bool, place: usize) -> Option<(String, String
         Ok(Err(_)) => {
             if executed.load(Ordering::SeqCst) != 0 {
                 Some((format!("{} executed-before-failing", head), ctx("a component was executed before the run failed".into())))
+            } else {
+                None
+            }
+        }
+    }
+}
+
+/// An evaluation step `depth` scopes below the scope that holds the evaluator (and the population), inside a
+/// loop of `passes` passes and followed by one more step at top level: the evaluator is only borrowed, so
+/// the run succeeds and every step evaluates the whole population.
+fn check_deep_evaluator(depth: usize, passes: u32, id_a: bool) -> Option<(String, String)> {
+    use mahf::conditions::LessThanN;
+    let problem = RealP::new(1, -1.0, 1.0, FKind::Sphere, Instr::new());
+    let ev = move |b: mahf::configuration::ConfigurationBuilder<RealP>| if id_a { b.evaluate_with::<A>() } else { b.evaluate_with::<Global>() };
+    fn nest(b: mahf::configuration::ConfigurationBuilder<RealP>, depth: usize, ev: impl Fn(mahf::configuration::ConfigurationBuilder<RealP>) -> mahf::configuration::ConfigurationBuilder<RealP> + Copy + 'static) -> mahf::configuration::ConfigurationBuilder<RealP> {
+        if depth == 0 {
+            ev(b)
+        } else {
+            b.scope_(move |b| nest(b, depth - 1, ev))
+        }
+    }
+    let config = ev(Configuration::<RealP>::builder().do_(mahf::components::initialization::RandomSpread::new(2)).while_(LessThanN::iterations(passes), move |b| nest(b, depth, ev))).build();
+    let r = catch(|| {
+        config.optimize_with(&problem, |st| {
+            st.insert(mahf::Random::new(7));
+            if id_a {
+                st.insert_evaluator_as::<A>(Sequential::<RealP>::new());
+            } else {
+                st.insert_evaluator(Sequential::<RealP>::new());
+            }
+            Ok(())
+        })
+    });
+    let head = format!("C06 evaluator-borrowed-from depth={}", if depth >= 2 { ">=2".to_string() } else { depth.to_string() });
+    let ctx = |w: String| format!("evaluation step {} scopes below the evaluator (identifier {}), {} passes, then one step at top level: {}", depth, if id_a { "A" } else { "Global" }, passes, w);
+    let expected = 2 * (passes as u64 + 1);
+    match r {
+        Err(p) => Some((format!("{} panic", head), ctx(format!("panicked: {}", p)))),
+        Ok(Err(e)) => Some((format!("{} run-fails", head), ctx(format!("returned Err after {} objective calls: {:#}", problem.instr.calls(), e)))),
+        Ok(Ok(_)) => {
+            if problem.instr.calls() != expected {
+                Some((format!("{} calls", head), ctx(format!("{} objective calls, expected {}", problem.instr.calls(), expected))))
             } else {
                 None
             }
@@ -316,6 +360,19 @@ pub fn run_part_a(rep: &mut Report) {
             }
         }
     }
+    for depth in 0..=3usize {
+        for passes in [1u32, 2] {
+            for id_a in [false, true] {
+                p.transitions += (passes + 1) as u64;
+                p.traces += 1;
+                p.states += 1;
+                p.outcome("deep-evaluator");
+                if let Some((s, d)) = check_deep_evaluator(depth, passes, id_a) {
+                    p.violate(s, d, json!({"kind": "deep", "depth": depth, "passes": passes, "id_a": id_a}));
+                }
+            }
+        }
+    }
     p.require(gated >= 6, "no gated completion orders were explored");
     let deg = DEGRADED.load(Ordering::SeqCst);
     if deg > 0 {
@@ -390,6 +447,7 @@ pub fn replay_a(case: &Value) -> Result<Vec<(String, String)>, String> {
             run_budget(&mut r);
             Ok(r.violations().into_iter().map(|v| (v.sig.clone(), v.detail.clone())).collect())
         }
+        "deep" => Ok(check_deep_evaluator(case["depth"].as_u64().unwrap_or(0) as usize, case["passes"].as_u64().unwrap_or(1) as u32, case["id_a"].as_bool().unwrap_or(false)).into_iter().collect()),
         "missing" => Ok(check_missing_evaluator(case["want_a"].as_bool().unwrap_or(false), case["place"].as_u64().unwrap_or(0) as usize).into_iter().collect()),
         "evalstep" => {
             let want = case["case"].as_str().ok_or("no case")?;
